@@ -77,7 +77,7 @@ var constructs = []construct{
 }
 
 // reduced alphabets for the largest size
-var smallAtoms = []int{0, 2, 5, 6, 7, 8}        // 1 pop exit stop v f
+var smallAtoms = []int{0, 2, 5, 6, 7, 8}                   // 1 pop exit stop v f
 var smallConstructs = []int{0, 1, 3, 5, 8, 10, 11, 13, 14} // exec if ifelse for forall loop repeat lit defcall
 
 type gen struct {
@@ -189,7 +189,9 @@ func shapesFamily(name string, size, depth int, at, co []int, budget time.Durati
 			}
 			return judge(c, "shapes", g.sb.String(), g.kinds)
 		},
-		Describe: func(item int) string { return fmt.Sprintf("programs whose first two generator choices are %d,%d", item/m, item%m) },
+		Describe: func(item int) string {
+			return fmt.Sprintf("programs whose first two generator choices are %d,%d", item/m, item%m)
+		},
 		CrashKey: func(item int) string { return "C03:crash:shapes" },
 	}
 }
